@@ -305,6 +305,8 @@ type verifC07swRun struct {
 
 	// crash-point forks (c07swcrash_test.go).
 	cur       *verifC07swCapture
+	laterSem  chan struct{}
+	laterWG   sync.WaitGroup
 	fr        *verifRng
 	crashMode int
 	nImg      int
@@ -1717,12 +1719,18 @@ func (x *verifC07swRun) runCase(i int) {
 	}
 	x.db = &verifC07swDB{verifC07DB: &verifC07DB{inner: bk}, x: x}
 	defer func() {
-		if x.s != nil {
-			_ = x.s.Stop()
-			x.s = nil
-		}
-		x.db.Close()
-		os.Remove(filepath.Join(x.dir, x.dbName))
+		// join the forks of this case, then stop the case's switch while
+		// the next case starts.
+		x.laterWG.Wait()
+		s, db, name := x.s, x.db, x.dbName
+		x.s = nil
+		x.later(func() {
+			if s != nil {
+				_ = s.Stop()
+			}
+			db.Close()
+			os.Remove(filepath.Join(x.dir, name))
+		})
 	}()
 
 	x.trace = x.trace[:0]
@@ -1860,4 +1868,5 @@ func TestVerifC07Switch(t *testing.T) {
 		x.runCase(i)
 		vc.CaseDone(i)
 	}
+	x.laterWG.Wait()
 }
